@@ -15,12 +15,21 @@ open Cuckoo.Proto
 
 /-- every thread's held locks were taken in strictly ascending order -/
 theorem lock_rank_ascending (s : PS) (h : Reach s) (t : Tid) : Desc (s.th t).held := by
-  sorry
+  exact (desc_iff_pairwise _).2 ((reach_inv s h).held_desc t)
 
 /-- a new lock is only ever taken above everything the thread already holds -/
 theorem acquire_above_held (s s' : PS) (t : Tid) (l : LockId) (ha : accept s (.acquire t l) = some s') :
     ∀ m ∈ (s.th t).held, m < l := by
-  sorry
+  simp only [accept] at ha
+  split at ha
+  · cases ha
+  split at ha
+  · cases ha
+  split at ha
+  · cases ha
+  next hasc =>
+    have := Classical.not_not.1 hasc
+    simpa [List.all_eq_true] using this
 
 /-- pure order fact: if every waiting thread waits for a lock above all the locks it holds, there is no cycle of
 threads each waiting for a lock held by the next -/
@@ -29,7 +38,26 @@ theorem no_wait_cycle (holds : Tid → List LockId) (wants : Tid → Option Lock
     (cycle : List Tid) (hne : cycle ≠ [])
     (hc : ∀ i, i < cycle.length →
       ∃ l, wants (cycle.getD i 0) = some l ∧ l ∈ holds (cycle.getD ((i + 1) % cycle.length) 0)) : False := by
-  sorry
+  have hn : 0 < cycle.length := List.length_pos_iff.2 hne
+  let w : Nat → LockId := fun i => (wants (cycle.getD (i % cycle.length) 0)).getD ⟨0, 0⟩
+  have hw : ∀ i, w i < w (i + 1) := by
+    intro i
+    obtain ⟨l, hl, hmem⟩ := hc (i % cycle.length) (Nat.mod_lt _ hn)
+    obtain ⟨l', hl', -⟩ := hc ((i + 1) % cycle.length) (Nat.mod_lt _ hn)
+    have e : (i % cycle.length + 1) % cycle.length = (i + 1) % cycle.length := by
+      rw [Nat.add_mod, Nat.mod_mod, ← Nat.add_mod]
+    rw [e] at hmem
+    have := hasc _ l' hl' l hmem
+    show (wants (cycle.getD (i % cycle.length) 0)).getD ⟨0, 0⟩ < (wants (cycle.getD ((i + 1) % cycle.length) 0)).getD ⟨0, 0⟩
+    rw [hl, hl']; exact this
+  have h1 := chain_lt w hw (cycle.length - 1)
+  have e : cycle.length - 1 + 1 = cycle.length := by omega
+  rw [e] at h1
+  have e2 : w cycle.length = w 0 := by
+    show (wants (cycle.getD (cycle.length % cycle.length) 0)).getD ⟨0, 0⟩ = (wants (cycle.getD (0 % cycle.length) 0)).getD ⟨0, 0⟩
+    rw [Nat.mod_self, Nat.zero_mod]
+  rw [e2] at h1
+  exact LockId.lt_irrefl _ h1
 
 /-- **deadlock freedom**: in a reachable state, a non-empty set of threads cannot all be blocked on locks held by
 members of the set, when their requests respect the order rule (which `accept` enforces for every request) -/
@@ -37,27 +65,51 @@ theorem proto_deadlock_free (s : PS) (h : Reach s) (blocked : List Tid) (hne : b
     (wants : Tid → LockId)
     (hasc : ∀ t ∈ blocked, ∀ m ∈ (s.th t).held, m < wants t)
     (hheld : ∀ t ∈ blocked, ∃ u ∈ blocked, s.holder (wants t) = some u) : False := by
-  sorry
+  have _ := hnd
+  have hi := reach_inv s h
+  obtain ⟨t₀, ht₀, hmax⟩ := exists_maximal wants blocked hne
+  obtain ⟨u, hu, hhold⟩ := hheld t₀ ht₀
+  have hm : wants t₀ ∈ (s.th u).held := (hi.held_iff u _).2 hhold
+  exact hmax u hu (hasc u hu _ hm)
 
 /-- a call that returns (not handing out a locked table) holds no lock -/
 theorem no_lock_after_return (s s' : PS) (h : Reach s) (t : Tid) (ha : accept s (.opEnd t false) = some s') :
     (s.th t).held = [] ∧ ∀ l, s'.holder l ≠ some t := by
-  sorry
+  simp only [accept, Bool.false_eq_true, if_false] at ha
+  split at ha
+  next hg =>
+    cases ha
+    have he : (s.th t).held = [] := List.isEmpty_iff.1 hg.1
+    exact ⟨he, ((reach_inv s h).held_nil_iff t).1 he⟩
+  · cases ha
 
 /-- an active locked section holds every lock of the current array, also after it grew the lock array -/
 theorem section_holds_everything (s : PS) (h : Reach s) (t : Tid) (ho : (s.th t).owner = true) (i : Nat)
     (hi : i < s.curSize) : s.holder ⟨s.curGen, i⟩ = some t := by
-  sorry
+  have hI := reach_inv s h
+  exact (hI.owner_all t ho).1 i (by rw [curSize_eq s hI.gens_ne]; exact hi)
 
 /-- arrays appended by an owner are born locked by it -/
 theorem appended_array_born_locked (s s' : PS) (t : Tid) (n : Nat) (ha : accept s (.append t n) = some s') :
     s'.gens = s.gens ++ [n] ∧ ∀ i, i < n → s'.holder ⟨s.gens.length, i⟩ = some t := by
-  sorry
+  simp only [accept] at ha
+  split at ha
+  next hg =>
+    cases ha
+    refine ⟨rfl, ?_⟩
+    intro i hi
+    simp [hi]
+  · cases ha
 
 /-- after the section's unlock nothing of any array is held by it -/
 theorem section_end_releases_all (s s' : PS) (h : Reach s) (t : Tid) (ha : accept s (.sectionEnd t) = some s') :
     ∀ l, s'.holder l ≠ some t := by
-  sorry
+  simp only [accept] at ha
+  split at ha
+  next hg =>
+    cases ha
+    exact ((reach_inv s h).held_nil_iff t).1 (List.isEmpty_iff.1 hg)
+  · cases ha
 
 /- The full termination statement — every fair extension of an accepted trace completes every pending call — needs a
    fairness model and a progress measure for competing displacements; it is not stated as a Lean `Prop` here because
